@@ -1634,7 +1634,11 @@ func (v *VMValue) FuncInvokeRaw(ctx *Context, params []*VMValue, useUpCtxLocal b
 		return nil
 	}
 
-	if cd.code == nil {
+	if cd.code == nil && strings.TrimSpace(cd.Expr) == "" {
+		// 空函数体 func noop() {} 序列化后只剩空的 Expr: 没有可解析的内容(解析会报"输入为空")，也没有可执行的内容，结果为 null
+		cd.code = []ByteCode{}
+		cd.codeIndex = 0
+	} else if cd.code == nil {
 		// Parse 会将 NumOpCount 清零，此处需保留调用者累计的算力，否则还原出来的函数/计算值可以无限递归
 		opCount := vm.NumOpCount
 		if err := vm.Parse(cd.Expr); err == nil {
